@@ -43,6 +43,13 @@ impl Component for C2 { type Storage = HashMapStorage<Self>; }
 impl Component for C3 { type Storage = DefaultVecStorage<Self>; }
 impl Component for C4 { type Storage = NullStorage<Self>; }
 impl Component for C5 { type Storage = specs::storage::BTreeStorage<Self>; }
+/// tracked storages: reading one (also reading its events) is a read, and is staged as a read
+#[derive(Default, Clone, Copy)]
+pub struct C6(pub u32);
+#[derive(Default, Clone, Copy)]
+pub struct C7(pub u32);
+impl Component for C6 { type Storage = specs::storage::FlaggedStorage<Self, VecStorage<Self>>; }
+impl Component for C7 { type Storage = specs::storage::DerefFlaggedStorage<Self, DenseVecStorage<Self>>; }
 
 trait Val {
     fn val(&self) -> u64;
@@ -56,13 +63,13 @@ macro_rules! val_u32 {
         }
     )*};
 }
-val_u32!(C0, C1, C2, C3, C5);
+val_u32!(C0, C1, C2, C3, C5, C6, C7);
 impl Val for C4 {
     fn val(&self) -> u64 { 1 }
     fn bump(&mut self) {}
 }
 
-const NCOMP: usize = 6;
+const NCOMP: usize = 8;
 
 #[derive(Clone, Copy, Debug, PartialEq)]
 enum H {
@@ -76,8 +83,8 @@ fn dec_handle(c: i64) -> Option<H> {
     match c {
         0 => Some(H::Ent),
         1 => Some(H::Lazy),
-        10..=15 => Some(H::R((c - 10) as u8)),
-        20..=25 => Some(H::W((c - 20) as u8)),
+        10..=17 => Some(H::R((c - 10) as u8)),
+        20..=27 => Some(H::W((c - 20) as u8)),
         _ => None,
     }
 }
@@ -100,6 +107,8 @@ macro_rules! with_comp {
             3 => { type $C = C3; $body }
             4 => { type $C = C4; $body }
             5 => { type $C = C5; $body }
+            6 => { type $C = C6; $body }
+            7 => { type $C = C7; $body }
             _ => unreachable!(),
         }
     };
@@ -159,12 +168,16 @@ enum Item<'a> {
     R3(ReadStorage<'a, C3>),
     R4(ReadStorage<'a, C4>),
     R5(ReadStorage<'a, C5>),
+    R6(ReadStorage<'a, C6>),
+    R7(ReadStorage<'a, C7>),
     W0(WriteStorage<'a, C0>),
     W1(WriteStorage<'a, C1>),
     W2(WriteStorage<'a, C2>),
     W3(WriteStorage<'a, C3>),
     W4(WriteStorage<'a, C4>),
     W5(WriteStorage<'a, C5>),
+    W6(WriteStorage<'a, C6>),
+    W7(WriteStorage<'a, C7>),
 }
 
 /// the real `SystemData::fetch` of a handle
@@ -178,12 +191,16 @@ fn real_fetch<'a>(h: H, w: &'a World) -> Item<'a> {
         H::R(3) => Item::R3(SystemData::fetch(w)),
         H::R(4) => Item::R4(SystemData::fetch(w)),
         H::R(5) => Item::R5(SystemData::fetch(w)),
+        H::R(6) => Item::R6(SystemData::fetch(w)),
+        H::R(7) => Item::R7(SystemData::fetch(w)),
         H::W(0) => Item::W0(SystemData::fetch(w)),
         H::W(1) => Item::W1(SystemData::fetch(w)),
         H::W(2) => Item::W2(SystemData::fetch(w)),
         H::W(3) => Item::W3(SystemData::fetch(w)),
         H::W(4) => Item::W4(SystemData::fetch(w)),
         H::W(5) => Item::W5(SystemData::fetch(w)),
+        H::W(6) => Item::W6(SystemData::fetch(w)),
+        H::W(7) => Item::W7(SystemData::fetch(w)),
         _ => unreachable!(),
     }
 }
@@ -201,6 +218,18 @@ macro_rules! touch_write {
     ($s:expr) => {{
         let mut acc = 0u64;
         for c in ($s).join() {
+            c.bump();
+            acc = acc.wrapping_add(c.val());
+        }
+        acc
+    }};
+}
+/// a storage that only lends its mutable items (DerefFlaggedStorage: the item writes to the channel on deref_mut)
+macro_rules! touch_write_lend {
+    ($s:expr) => {{
+        let mut acc = 0u64;
+        let mut j = ($s).lend_join();
+        while let Some(mut c) = j.next() {
             c.bump();
             acc = acc.wrapping_add(c.val());
         }
@@ -234,12 +263,16 @@ impl<'a> Item<'a> {
             Item::R3(s) => touch_read!(&*s),
             Item::R4(s) => touch_read!(&*s),
             Item::R5(s) => touch_read!(&*s),
+            Item::R6(s) => touch_read!(&*s),
+            Item::R7(s) => touch_read!(&*s),
             Item::W0(s) => touch_write!(&mut *s),
             Item::W1(s) => touch_write!(&mut *s),
             Item::W2(s) => touch_write!(&mut *s),
             Item::W3(s) => touch_write!(&mut *s),
             Item::W4(s) => touch_write!(&mut *s),
             Item::W5(s) => touch_write!(&mut *s),
+            Item::W6(s) => touch_write!(&mut *s),
+            Item::W7(s) => touch_write_lend!(&mut *s),
         }
     }
 }
@@ -470,6 +503,8 @@ fn populate(world: &mut World) {
         if k % 5 != 0 { b = b.with(C3(k)); }
         if k % 2 == 1 { b = b.with(C4); }
         if k % 7 < 3 { b = b.with(C5(k)); }
+        if k % 3 != 1 { b = b.with(C6(k)); }
+        if k % 4 != 2 { b = b.with(C7(k)); }
         b.build();
     }
     world.delete_entities(&spare).unwrap();
